@@ -17,10 +17,14 @@ EXTENDS Integers, Sequences, FiniteSets, TLC
 \* point:     [type, key, val, txt]
 \* action:    [target, ptype, val, txt]               (setValue)
 
+\* a schedule condition looks at trigger points only (from any node); their time decides.  The
+\* window arithmetic is Schedule.tla (C14); here a trigger point carries val = 1 if its time lies
+\* in the condition's window and 0 if not.
 Matches(c, node, p) ==
-    /\ (c.nodeF = "" \/ c.nodeF = node)
-    /\ (c.keyF = "" \/ c.keyF = p.key)
-    /\ (c.typeF = "" \/ c.typeF = p.type)
+    IF c.vt = "schedule" THEN p.type = "trigger"
+    ELSE /\ (c.nodeF = "" \/ c.nodeF = node)
+         /\ (c.keyF = "" \/ c.keyF = p.key)
+         /\ (c.typeF = "" \/ c.typeF = p.type)
 
 \* substring relation on the model's texts
 Contains(s, sub) == sub = "" \/ s = sub \/ (s = "ab" /\ sub \in {"a", "b"}) \/ (s = "ba" /\ sub \in {"a", "b"})
@@ -30,6 +34,7 @@ Sat(c, p) ==
             (CASE c.op = ">" -> p.val > c.thr [] c.op = "<" -> p.val < c.thr
                [] c.op = "=" -> p.val = c.thr [] c.op = "!=" -> p.val # c.thr [] OTHER -> FALSE)
       [] c.vt = "onOff"  -> (c.thr # 0) = (p.val # 0)
+      [] c.vt = "schedule" -> p.val = 1
       [] c.vt = "text"   ->
             (CASE c.op = "=" -> p.txt = c.txt [] c.op = "!=" -> p.txt # c.txt
                [] c.op = "contains" -> Contains(p.txt, c.txt) [] OTHER -> FALSE)
